@@ -1038,8 +1038,8 @@ func hexStr(h string) string {
 
 // pmJudgeStoreDiff: the export/import oracle shared by the engines `router` and `pm`.  Predicted by Props/C19PoolManager and
 // therefore keyed: overrides EQUAL to the default taker fee are dropped by the message-path setter InitGenesis uses; the taker-fee
-// share agreements (0x0B), registered alloyed pools (0x0C) and skim accumulators (0x0A) have no genesis field.  Counted only: the
-// empty volume entry InitGenesis writes for a pool that never traded (GetTotalVolumeForPool answers the empty coins either way).
+// share agreements (0x0B), registered alloyed pools (0x0C) and skim accumulators (0x0A) have no genesis field; the empty volume
+// entry InitGenesis writes for a pool that never traded (raw store only: GetTotalVolumeForPool answers the empty coins either way).
 // Anything else is an unpredicted difference.  `extra` is appended to the detail of the override finding (the directed witness).
 func pmJudgeStoreDiff(o *Out, h *H, pre, post map[string]string, defFee *big.Int, extra string) (droppedPairs []string) {
 	diff := pmStoreDiff(pre, post)
@@ -1089,7 +1089,13 @@ func pmJudgeStoreDiff(o *Out, h *H, pre, post map[string]string, defFee *big.Int
 				}
 			}
 			if emptyOnly {
+				// raw-store only: GetTotalVolumeForPool answers the empty coins for an absent entry and for an empty one
 				o.Count("exportimport.empty-volume-entry-materialised")
+				var ids []string
+				for _, key := range keys {
+					ids = append(ids, strings.Trim(hexStr(key)[1:], "|"))
+				}
+				twLoss(o, "export-import:poolmanager:empty-volume-entry-materialised", fmt.Sprintf("pools %v never traded: no volume key (0x03|id|) before ExportGenesis, an entry with empty coins after InitGenesis (ExportGenesis lists every pool of AllPools, InitGenesis calls SetVolume for each)", ids))
 			} else {
 				o.Fail("export-import:poolmanager:store-differs:03:extra", fmt.Sprint(keys))
 			}
